@@ -66,7 +66,7 @@ def run(ctx):
     if ctx.thorough:
         ctx.tlc_must_hold("Lifecycle", "Lifecycle_two.cfg", what="two simulations sharing model and mesh", timeout=1800)
         ctx.tlc_must_hold("Lifecycle", "Lifecycle_cache_thorough.cfg", what="NoStale at MaxVer=2", timeout=3000)
-    for d in ["coord_no_notify", "setmesh_no_observe", "setiter_keeps_maps", "rho_no_update", "bc_size_no_update"]:
+    for d in ["coord_no_notify", "setmesh_no_observe", "setiter_keeps_maps", "rho_no_update", "bc_size_no_update", "move_keeps_simcache"]:
         ctx.tlc_must_fail("Lifecycle", f"Lifecycle_neg_{d}.cfg")
     num = 1500 if ctx.thorough else 250
     for name in ["Elastic", "Thermal", "MatSimu"]:
@@ -75,7 +75,7 @@ def run(ctx):
     for name in ["Elastic", "Thermal", "MatSimu"]:
         lc.simulate_and_replay(ctx, name, ["SetMesh", "SaveIter", "SetIter", "Solve", "GetKCMF", "Translate", "SetParam"], num // 2, 12, ctx.seed + 4, label="restore")
     lc.simulate_and_replay(ctx, "Elastic", ["SetParam", "SetRho", "Translate", "SetCoord", "SetMesh", "GetKCMF", "Solve", "SetBc"], num // 2, 10, ctx.seed + 3, sims=("s1", "s2"), label="shared")
-    for name in ["Beam", "Elastic3D"]:
+    for name in ["Beam", "Elastic3D", "WeakForms", "HyperElastic"]:
         lc.simulate_and_replay(ctx, name, lc.ALL_ACTS, num // 2, 14, ctx.seed + 5, label="all")
         lc.simulate_and_replay(ctx, name, lc.CACHE_ACTS, num // 2, 12, ctx.seed + 6, label="cache")
     beam_mesh_replacement(ctx)
